@@ -14,10 +14,24 @@ from checks import c01gen
 
 TRUST = ("Lean 4.33 kernel; axioms at most propext/Classical.choice/Quot.sound (audited per run by #audit_module); ")
 MANIFEST = dict(
-  text=("Theorems (Props/C01.lean, Gen/RemoraRules.lean) about the deep embedding VExp/MExp of remora's expression classes "
-        "with the documented element-wise denotation over an arbitrary commutative ring with opaque functors."),
-  note=TRUST + "rounding, kernel dispatch and the template meta-program selecting rules are exercised by the correspondence only.",
-  technique="Lean 4 proof over a deep embedding + per-run translation of the rewrite-rule table + differential correspondence with generated C++ programs (ASan/UBSan)",
+  text=("Lean theorems about an executable deep embedding VExp/MExp of remora's expression classes whose denotation "
+        "(size, index -> R) is the documented element-wise definition, over an arbitrary commutative ring with opaque "
+        "functors: (i) one lemma per rewrite rule of detail/expression_optimizers.hpp (86 of 93; 7 rules are shown "
+        "uninstantiable), REGENERATED from the C++ on every run by translate/remora_rules.py and closed by one fixed "
+        "tactic, with optimize_sound lifting per-rule soundness to composite rewrites of any depth; (ii) "
+        "assign_alias_correct: the aliasing forms =,+=,-=,*=,/= yield f(old target, rhs on the old memory) for every "
+        "right-hand side, also when it reads the target; assign_noalias_correct / assign_noalias_elementwise_correct for "
+        "the in-place forms under disjointness resp. same-index reads; (iii) orientation_irrelevant for all shapes and "
+        "proxy_index_* for nested dense proxies. The model is tied to the real code by an exact correspondence: "
+        "generated programs of typed statements (all assignment forms, explicit aliasing, proxies, products, reductions, "
+        "shapes incl. 0 and 1) compiled per run against the repo headers with and without REMORA_USE_CBLAS under "
+        "ASan/UBSan, compared value-for-value with the model run on rationals, plus an independent naive-loop oracle."),
+  note=TRUST + "floating-point rounding is not modelled (data are kept exactly representable, comparison is exact); "
+       "kernel dispatch (default/cblas kernels, blockwise vs element-wise evaluation), the template meta-program that "
+       "selects which rule fires, sparse containers and reductions are exercised by the correspondence only; the "
+       "assignment theorems are about the element loop on an abstract lawful memory, the hand-written model is tied by "
+       "the correspondence, the rule table by translation.",
+  technique="Lean 4 proof over a deep embedding + per-run translation of the rewrite-rule table into lemmas + differential correspondence with generated C++ programs (ASan/UBSan, both BLAS configurations)",
   design="§6 C01")
 
 FINISH = dict(level="proof",
@@ -229,10 +243,20 @@ def run(ctx):
     ctx.assumptions += ["operands respect the documented size preconditions (REMORA_SIZE_CHECK / REMORA_RANGE_CHECK)",
                         "exact arithmetic: data are small integers / dyadic rationals bounded so that every double operation is exact"]
     translate(ctx)
+    try:
+        tab = json.load(open(os.path.join(GEN_DIR, "rules.json")))
+        ctx.cov["rewrite_rules_total"] = tab["total"]
+        ctx.cov["rewrite_rules_translated_to_lemmas"] = tab["translated"]
+        ctx.cov["rewrite_rules_uninstantiable"] = [f"{r['opt']}<{r['pattern']}>: {r['reason']}"[:200]
+                                                   for r in tab["rules"] if r["status"] == "uninstantiable"]
+        ctx.cov["rewrite_rules_with_implicit_conversions"] = [r["name"] for r in tab["rules"] if r.get("conversions")]
+    except OSError:
+        pass
     mods = ["SharkVerif.Props.C01"]
     if os.path.exists(os.path.join(core.LEAN, "SharkVerif", "Gen", "RemoraRules.lean")):
         mods.append("SharkVerif.Gen.RemoraRules")
-    ctx.prove(mods)
+    ok = ctx.prove(mods)
+    ctx.cov["rewrite_rule_lemmas_proved"] = sum(1 for n in ctx.obligations if ".rule_" in n) if ok else 0
     if not ctx.quick:
         ctx.leanchecker(mods)
     drv = ctx.driver("drv_c01")
@@ -269,6 +293,29 @@ def run(ctx):
 
 
 def replay(ctx, rep):
-    print("replay: re-run the check with the recorded seed/tier; statements are compiled per run")
-    print(json.dumps({k: rep.get(k) for k in ("seed", "tier", "ops", "what")}, indent=1)[:3000])
-    return 1
+    """re-render the recorded op lines (statements are compiled per run), run model and implementation"""
+    if "ops" not in rep:
+        print("this replay records a broken obligation / build, not an input:")
+        print(json.dumps(rep.get("broken", rep), indent=1)[:3000])
+        return 1
+    translate(ctx)
+    calc = None
+    tj = os.path.join(GEN_DIR, "rules.json")
+    if os.path.exists(tj):
+        from checks import c01cls
+        calc = c01cls.ClassCalc(json.load(open(tj)))
+    case, _ = c01gen.CorpusGen(calc).load([o for o in rep["ops"] if o.strip()], 0)
+    cases, tus, _ = render([case], 1000)
+    cblas = "cblas" in os.path.basename((rep.get("harness_cmd") or ["c01-default"])[0])
+    exe = compile_program(ctx, "c01-replay", tus, ["-DREMORA_USE_CBLAS"] if cblas else [])
+    drv = ctx.driver("drv_c01")
+    if not exe or isinstance(exe, list) or not drv:
+        print("replay: could not build", exe)
+        return 1
+    res = core.run_case(ctx, [exe], [drv], cases[0])
+    for o, a, b in zip(cases[0], res.impl, res.model + [""] * len(res.impl)):
+        print(f"op   : {o}\nimpl : {a}\nmodel: {b}")
+    if res.stderr.strip():
+        print("stderr:", res.stderr[-2500:])
+    print("OK" if res.ok else "FAILS")
+    return 0 if res.ok else 1
